@@ -3,8 +3,11 @@ package vrun
 import (
 	"fmt"
 	"sync"
+	"sync/atomic"
 	"testing"
 	"time"
+
+	"github.com/mdzio/go-mqtt/auth"
 
 	"verif/harness/out"
 	"verif/harness/rawclient"
@@ -20,13 +23,48 @@ import (
 // CONNACK 0; a refused CONNECT with bad credentials in the same instant must get
 // code 4 and be closed. Real time over net.Pipe; the verdict waits for the
 // answers, it is not a deadline.
+// gateAuth accepts everybody; while a gate is armed it holds every Authenticate call until as many
+// calls as the gate expects have arrived (or 2 s have passed), so that the CONNECTs of a group leave
+// authentication - the step before the session lookup - at the same moment. Delays only.
+type gateAuth struct{}
+
+type authGate struct {
+	mu      sync.Mutex
+	want    int
+	arrived int
+	open    chan struct{}
+}
+
+var curGate atomic.Pointer[authGate]
+
+func (gateAuth) Authenticate(id string, cred interface{}) error {
+	g := curGate.Load()
+	if g == nil {
+		return nil
+	}
+	g.mu.Lock()
+	g.arrived++
+	if g.arrived == g.want {
+		close(g.open)
+	}
+	g.mu.Unlock()
+	select {
+	case <-g.open:
+	case <-time.After(2 * time.Second):
+	}
+	return nil
+}
+
+func init() { auth.Register("gateauth", gateAuth{}) }
+
 func c11Parallel(idx int, seed uint64) {
 	r := spec.NewRand(seed)
 	groups := 150 + r.Intn(100)
 	params := map[string]interface{}{"case": idx, "groups": groups}
 	fail := func(sig, desc string) { out.Violation(sig, desc, params) }
-	w := newWorld(worldCfg{BufferSize: 16384})
+	w := newWorld(worldCfg{BufferSize: 16384, Authenticator: "gateauth"})
 	defer w.shutdown()
+	defer curGate.Store(nil)
 	const wait = 20 * time.Second
 	for g := 0; g < groups; g++ {
 		n := 2 + r.Intn(3)
@@ -44,6 +82,13 @@ func c11Parallel(idx int, seed uint64) {
 				o.Clean = r.Bool()
 			}
 			pkts[i] = rc.Encode(connectPacket(o))
+		}
+		// two groups in three pass the gate: their CONNECTs are released from authentication together
+		if g%3 != 2 {
+			curGate.Store(&authGate{want: n, open: make(chan struct{})})
+			out.Count("c11.parallel_gated_groups", 1)
+		} else {
+			curGate.Store(nil)
 		}
 		var wg sync.WaitGroup
 		start := make(chan struct{})
